@@ -117,13 +117,41 @@ func ruleC11(c *Ctx, r *Report) {
 				continue
 			}
 			guarded := false
+			samePath := false
 			for _, fct := range allFacts(call.Block()) {
 				if ec, ok := fct.Cond.(*ssa.Call); ok && calleeKey(&ec.Call) == existsKey && !fct.Pol && t.Has(ec.Call.Args[0]) {
 					guarded = true
+					for _, a := range call.Call.Args {
+						if t.Has(a) && samePathExpr(a, ec.Call.Args[0]) {
+							samePath = true
+						}
+					}
 				}
 			}
 			r.Check(guarded, "C11-R1", construct, c.InstrPos(call),
 				"key writer called only where "+exists.Name()+"(keyPath) is false", "key writer reachable without the existence test of the key path having answered false: an existing key can be overwritten")
+			if guarded {
+				r.Check(samePath, "C11-R1", construct+":same-path-as-test", c.InstrPos(call),
+					"the path that is written is the very path expression the existence test examined",
+					"the existence test and the write use differently derived paths (one of them is expanded / rewritten): the test can answer 'absent' for a key file that exists at the path actually written, which is then overwritten")
+			}
+		}
+	}
+	// the load branch reads the very path that was tested
+	if rk := c.Fn("ReadKeyFromFile"); rk != nil {
+		for _, call := range c.callersOf(rk) {
+			if call.Parent() != an.RedactClosure || len(call.Call.Args) == 0 || !t.Has(call.Call.Args[0]) {
+				continue
+			}
+			same := false
+			for _, fct := range allFacts(call.Block()) {
+				if ec, ok := fct.Cond.(*ssa.Call); ok && calleeKey(&ec.Call) == existsKey && fct.Pol && samePathExpr(call.Call.Args[0], ec.Call.Args[0]) {
+					same = true
+				}
+			}
+			r.Check(same, "C11-R1", fmt.Sprintf("%s:reads-tested-path(%s)", call.Parent().Name(), rk.Name()), c.InstrPos(call),
+				"the key is loaded from the very path expression the existence test found present",
+				"the key is loaded from a path that is derived differently from the one the existence test examined: 'exists' and 'load' can disagree about which file is the key file")
 		}
 	}
 	// returns of the existence test
@@ -470,4 +498,17 @@ func keyReaderShapeRule(c *Ctx, r *Report, reader *ssa.Function, rule string) {
 		detail = "the key reader writes into a buffer (" + strings.Join(wipes, ", ") + "): the returned key can alias memory that is cleared or overwritten"
 	}
 	r.Check(okShape, rule, reader.Name()+":decodes-whole-file", c.Pos(reader.Pos()), detail, detail)
+}
+
+// samePathExpr: a and b are the same value, or loads of the same variable.
+func samePathExpr(a, b ssa.Value) bool {
+	if a == b {
+		return true
+	}
+	ua, ok1 := a.(*ssa.UnOp)
+	ub, ok2 := b.(*ssa.UnOp)
+	if ok1 && ok2 && ua.Op == token.MUL && ub.Op == token.MUL && ua.X == ub.X {
+		return true
+	}
+	return false
 }
